@@ -24,6 +24,7 @@ type thread struct {
 	op      *op // pending operation (nil while running)
 	steps   int // operations executed (program counter for state keys)
 	waitSig bool // cond: signalled
+	condWaits int // number of Cond.Wait calls this thread has parked in
 	// rendezvous completion (unbuffered channels / select)
 	completed bool
 	selIdx    int
@@ -301,6 +302,18 @@ func Choose(what string, n int) int {
 		panic(abortExec{})
 	}
 	return c
+}
+
+// CondWaitsOf returns how many times the named thread has parked in a
+// Cond.Wait so far (an observation independent of the code under test: a
+// thread that has parked inside a call is waiting there).
+func CondWaitsOf(name string) int {
+	for _, t := range cur.threads {
+		if t.name == name {
+			return t.condWaits
+		}
+	}
+	return 0
 }
 
 // ThreadName returns the running thread's name.
